@@ -132,6 +132,7 @@ type Sim struct {
 	knobs       map[string]int
 	probes      []int64
 	runnableBuf []*Task
+	rootSync    int64
 }
 
 var theSim *Sim
@@ -247,6 +248,7 @@ func Run(cfg Config, main func()) *Result {
 	raceDisable()
 	res := s.loop()
 	raceEnable()
+	raceAcquireAtRoot(s)
 	if res.Deadlock || res.Livelock {
 		s.describeStuck(res) // uses fmt: only with race detection back on
 	}
@@ -278,6 +280,7 @@ func (t *Task) finish() {
 	if r := recover(); r != nil {
 		t.sim.panics = append(t.sim.panics, TaskPanic{Task: t.Name, Value: fmt.Sprint(r), Stack: string(debug.Stack())})
 	}
+	raceReleaseToRoot(t.sim)
 	raceDisable()
 	t.sim.live--
 	t.state.Store(stDone)
@@ -295,6 +298,7 @@ func (t *Task) Park(site string, w Waiter) {
 		s.steps++
 		return
 	}
+	raceReleaseToRoot(s)
 	raceDisable()
 	t.site = site
 	t.wait = w
@@ -307,6 +311,7 @@ func (t *Task) Park(site string, w Waiter) {
 //
 //go:norace
 func (t *Task) BlockBegin(site string) {
+	raceReleaseToRoot(t.sim)
 	raceDisable()
 	t.site = site
 	t.state.Store(stBlocked)
